@@ -67,6 +67,11 @@ def rand_entries(rng, allow_root):
         isdir = bool(meta and meta.isdir) or bool(hi and hi.value.endswith(".dir"))
         # a directory entry that is not marked loaded would be expanded on iteration (C17's subject): explicit ones are loaded
         out[key] = DataIndexEntry(key=key, meta=meta, hash_info=hi, loaded=True if isdir else rng.choice([None, True, False]))
+    # explicit directory entries ABOVE some of the keys (an entry at ("data",) next to entries at ("data", "bar"), ...)
+    for key in list(out):
+        for j in range(1, len(key)):
+            if rng.random() < 0.4 and key[:j] not in out:
+                out[key[:j]] = DataIndexEntry(key=key[:j], meta=Meta(isdir=True), hash_info=rng.choice([None, HashInfo("md5", md5(b"dd") + ".dir")]), loaded=True)
     if allow_root and rng.random() < 0.3:
         out[()] = DataIndexEntry(key=(), meta=Meta(isdir=True), hash_info=None, loaded=True)
     return out
@@ -160,7 +165,7 @@ def main():
             except Exception as e:  # noqa: BLE001
                 failures.append({"problems": [f"raised {type(e).__name__}: {str(e)[:120]}"]})
     print(json.dumps({"evaluations": n, "distinct_nontrivial": n, "n_failures": len(failures), "failures": failures[:4],
-                      "bound": f"{n} seeded indexes: <= 6 entries, depth <= 3, non-ASCII / dot / backslash / blank parts, optional meta/hash/loaded, false-y values; "
+                      "bound": f"{n} seeded indexes: <= 6 entries, depth <= 3, explicit directory entries above other keys, non-ASCII / dot / backslash / blank parts, optional meta/hash/loaded, false-y values; "
                                "json, key-value db, sqlite with commit/close/reopen, a lazily loaded directory object, in-place updates, rollback + repeat, deletions below a loaded directory"}))
 
 
